@@ -3,19 +3,26 @@
    the validator can report. *)
 From Coq Require Import List ZArith String Bool Arith Lia.
 Import ListNotations.
-Require Import Naga.IR.Syntax Naga.Valid.ValidatorModel Naga.Valid.CfLegal Naga.Valid.StmtInd Naga.Valid.CfProofs
+Require Import Naga.IR.Syntax Naga.Valid.ValidatorModel Naga.Valid.ValidatorModelFixed Naga.Valid.CfLegal Naga.Valid.StmtInd Naga.Valid.CfProofs
         Naga.Valid.Reach Naga.Valid.BindingRule Naga.Valid.BindingProofs.
 Open Scope Z_scope.
 
 (* an error list reports nothing of the control-flow classes / of the binding class *)
-Definition quiet (l : list verror) : Prop := cf_errors l = [] /\ binding_errors l = [].
+Definition quiet (l : list verror) : Prop :=
+  cf_errors l = [] /\ binding_errors l = [] /\ binding_errors_fx l = [].
 Definition cfquiet (l : list verror) : Prop := binding_errors l = [].   (* may report cf errors, not binding errors *)
 
-Lemma quiet_nil : quiet []. Proof. split; reflexivity. Qed.
+Lemma bx_app a b : binding_errors_fx (a ++ b) = binding_errors_fx a ++ binding_errors_fx b.
+Proof. apply filter_app. Qed.
+Lemma quiet_nil : quiet []. Proof. repeat split; reflexivity. Qed.
 Lemma quiet_app a b : quiet a -> quiet b -> quiet (a ++ b).
-Proof. intros [A1 A2] [B1 B2]. split; [rewrite cf_app|rewrite b_app]; now rewrite ?A1, ?A2, ?B1, ?B2. Qed.
-Lemma quiet_when b c f s e : is_cf c = false -> is_binding c = false -> quiet (when b (mkverr c f s e)).
-Proof. intros H1 H2. destruct b; split; cbn; rewrite ?H1, ?H2; reflexivity. Qed.
+Proof.
+  intros (A1 & A2 & A3) (B1 & B2 & B3). repeat split; [rewrite cf_app|rewrite b_app|rewrite bx_app];
+    now rewrite ?A1, ?A2, ?A3, ?B1, ?B2, ?B3.
+Qed.
+Lemma quiet_when b c f s e :
+  is_cf c = false -> is_binding c = false -> is_binding_fx c = false -> quiet (when b (mkverr c f s e)).
+Proof. intros H1 H2 H3. destruct b; repeat split; cbn; rewrite ?H1, ?H2, ?H3; reflexivity. Qed.
 Lemma quiet_flat_map {A} (f : A -> list verror) l : (forall x, quiet (f x)) -> quiet (flat_map f l).
 Proof. intros H. induction l; cbn; [apply quiet_nil|apply quiet_app; auto]. Qed.
 
@@ -103,21 +110,6 @@ Qed.
 Lemma bq_body E b d ic k : cfquiet (vblock E d ic k b).
 Proof. apply bq_block. apply Forall_forall. intros s _. apply bq_stmt. Qed.
 
-(* one function: everything before the body is quiet *)
-Definition vfunction_head (m : module) (f : func) : list verror :=
-  let E := env_of m f in
-  flat_map (fun a => when (negb (valid_h (fa_type a) (e_ntypes E))) (err_fn (f_name f) VArgType)) (f_args f)
-  ++ match f_result f with
-     | Some r => when (negb (valid_h (fr_type r) (e_ntypes E))) (err_fn (f_name f) VResultType)
-     | None => []
-     end
-  ++ flat_map (fun l => when (negb (valid_h (lv_type l) (e_ntypes E))) (err_fn (f_name f) VLocalType)
-                        ++ match lv_init l with
-                           | Some h => when (negb (valid_h h (e_nexprs E))) (err_fn (f_name f) VLocalInit)
-                           | None => []
-                           end) (f_locals f)
-  ++ vexprs_from E O (f_exprs f).
-
 Lemma vfunction_split m f : vfunction m f = vfunction_head m f ++ vblock (env_of m f) O false 0 (f_body f).
 Proof. unfold vfunction, vfunction_head. now rewrite <- !app_assoc. Qed.
 
@@ -129,7 +121,7 @@ Proof. rewrite vfunction_split, cf_app. destruct (quiet_head m f) as [-> _]. ref
 
 Lemma b_vfunction m f : binding_errors (vfunction m f) = [].
 Proof.
-  rewrite vfunction_split, b_app. destruct (quiet_head m f) as [_ ->]. cbn. apply bq_body.
+  rewrite vfunction_split, b_app. destruct (quiet_head m f) as (_ & -> & _). cbn. apply bq_body.
 Qed.
 
 Lemma cf_vfunctions m : forall fs names,
@@ -173,7 +165,7 @@ Theorem validate_binding_errors m :
   binding_errors (validate_model m) = [] <-> NoDup (module_bindings m).
 Proof.
   unfold validate_model. rewrite !b_app.
-  destruct (quiet_vtypes m) as [_ ->], (quiet_vconstants m) as [_ ->], (quiet_ventries m) as [_ ->].
+  destruct (quiet_vtypes m) as (_ & -> & _), (quiet_vconstants m) as (_ & -> & _), (quiet_ventries m) as (_ & -> & _).
   unfold vfunctions. rewrite b_vfunctions, !app_nil_r. cbn [app].
   unfold vglobals, module_bindings. rewrite vglobals_binding_exact. split; [tauto|]. intros H. split; [assumption|]. auto.
 Qed.
